@@ -78,6 +78,8 @@ class Aff:
         return set(self.c)
 
     def __eq__(self, o):
+        if not isinstance(o, (Aff, int, Fraction)):
+            return False
         o = _lift(o)
         return self.c == o.c and self.k == o.k
 
